@@ -278,6 +278,11 @@ NAMESPACES_PLUGINS: t.Final[cabc.Mapping[str, Plugin]] = {
         ("5.0.0", "7.0.0"),
         "org.polarsys.capella.core.viewpoint",
     ),
+    "org.polarsys.capella.core.data.pa.deployment": Plugin(
+        "http://www.polarsys.org/capella/core/pa/deployment/",
+        ("5.0.0", "7.0.0"),
+        "org.polarsys.capella.core.viewpoint",
+    ),
     "re": Plugin(
         "http://www.polarsys.org/capella/common/re/",
         ("5.0.0", "7.0.0"),
